@@ -105,11 +105,23 @@ func genString(r *Rng, vc tally.ValidCharacters, maxRunes int) string {
 	var b []byte
 	for i := 0; i < n; i++ {
 		switch r.Intn(12) {
-		case 0: // raw invalid byte
-			b = append(b, []byte{0x80, 0xbf, 0xc0, 0xc1, 0xf5, 0xff, 0xe2, 0xf0}[r.Intn(8)])
-		case 1: // truncated multi-byte sequence
-			enc := utf8.AppendRune(nil, []rune{'é', '世', '😀'}[r.Intn(3)])
-			b = append(b, enc[:len(enc)-1]...)
+		case 0: // raw invalid byte: continuation bytes, illegal bytes, and LONE LEAD bytes of every length class
+			if r.Bool() {
+				b = append(b, []byte{0x80, 0xbf, 0xc0, 0xc1, 0xf5, 0xff, 0xe2, 0xf0, 0xef, 0xed, 0xe0, 0xf4, 0xc2, 0xdf}[r.Intn(14)])
+			} else {
+				b = append(b, byte(r.Range(0x80, 0xff)))
+			}
+		case 1: // truncated multi-byte sequence of a random rune (incl. U+F000..U+FFFF whose lead byte is 0xEF)
+			rn := []rune{'é', '世', '😀', 0xfffd, 0xf000, 0xffff, 0x7ff, 0x800, 0x10ffff}[r.Intn(9)]
+			if r.Chance(30) {
+				rn = genRune(r)
+			}
+			enc := utf8.AppendRune(nil, rn)
+			if len(enc) > 1 {
+				b = append(b, enc[:r.Range(1, len(enc)-1)]...)
+			} else {
+				b = append(b, 0xef)
+			}
 		case 2: // surrogate / overlong encodings
 			b = append(b, [][]byte{{0xed, 0xa0, 0x80}, {0xc0, 0xaf}, {0xe0, 0x80, 0xaf}, {0xf4, 0x90, 0x80, 0x80}}[r.Intn(4)]...)
 		case 3, 4:
@@ -187,26 +199,65 @@ func suiteC06(c *Ctx) {
 		if out2 != out {
 			c.Cov.Fail(Failure{Kind: "violated", Clause: "idempotent", Signature: sig, Line: line, Reply: "second application " + hxs(out2) + " != " + hxs(out)})
 		}
-		// determinism + buffer pool independence
+		// determinism + buffer pool independence: 16 goroutines sanitize DIFFERENT strings (distinct fill
+		// letters and lengths, each needing a replacement so that the pooled buffer is used) and every result is
+		// compared with the result computed alone beforehand
 		if i%40 == 0 {
+			type job struct{ in, want string }
+			jobs := make([]job, 16)
+			for g := range jobs {
+				n := 8 + g*37
+				if g%4 == 0 {
+					n = 3000 + g*60 // ~4KiB strings keep a buffer busy long enough for a misuse to show
+				}
+				bs := make([]byte, n)
+				for k := range bs {
+					bs[k] = byte('a' + g)
+				}
+				bs[n/2] = 0xff // invalid byte: forces the copy-and-replace path
+				if n > 4 {
+					bs[1] = 0x01
+				}
+				jobs[g] = job{in: string(bs)}
+			}
+			plain := tally.NewSanitizer(tally.SanitizeOptions{
+				NameCharacters:       tally.ValidCharacters{Ranges: tally.AlphanumericRange},
+				KeyCharacters:        tally.ValidCharacters{Ranges: tally.AlphanumericRange},
+				ValueCharacters:      tally.ValidCharacters{Ranges: tally.AlphanumericRange},
+				ReplacementCharacter: '_'})
+			for g := range jobs {
+				jobs[g].want = plain.Name(jobs[g].in)
+			}
 			var wg sync.WaitGroup
 			bad := make(chan string, 16)
-			for g := 0; g < 16; g++ {
+			for g := range jobs {
 				wg.Add(1)
-				go func() {
+				go func(j job) {
 					defer wg.Done()
-					for k := 0; k < 50; k++ {
-						if o := san.Name(s); o != san.Name(s) || (k%2 == 0 && san.Value(s) != san.Key(s)) {
-							bad <- o
+					for k := 0; k < 120; k++ {
+						var o string
+						switch k % 3 {
+						case 0:
+							o = plain.Name(j.in)
+						case 1:
+							o = plain.Key(j.in)
+						default:
+							o = plain.Value(j.in)
+						}
+						if o != j.want {
+							select {
+							case bad <- fmt.Sprintf("input %d bytes of %q: got %d bytes starting %q", len(j.in), j.in[:1], len(o), o[:min(8, len(o))]):
+							default:
+							}
 							return
 						}
 					}
-				}()
+				}(jobs[g])
 			}
 			wg.Wait()
 			close(bad)
-			for range bad {
-				c.Cov.Fail(Failure{Kind: "violated", Clause: "deterministic-concurrent", Signature: "sanitize-concurrent", Line: line})
+			for msg := range bad {
+				c.Cov.Fail(Failure{Kind: "violated", Clause: "deterministic-concurrent", Signature: "sanitize-concurrent", Line: "16 goroutines, distinct strings, shared buffer pool", Reply: msg})
 			}
 			c.Cov.Hit("concurrent.rounds")
 		}
